@@ -661,6 +661,23 @@ func main() {
 			checkAll(v, false)
 		}
 	})
+	// values that encoding/json refuses (NaN, ±Inf, a channel, a function, a complex number, a map with non-string
+	// keys) but that carry a string: an error or an omitted argument is the documented outcome; whatever is emitted
+	// instead (a fallback text form of the value) is still subject to the structural requirements
+	{
+		type stf struct {
+			S string
+			F float64
+		}
+		carried := append(append([]string{}, small...), "</script><script>alert(1)</script><!--", "<!--<script>", "-->", "]]>", "\u2028")
+		parallel(len(carried), func(i int) {
+			s := carried[i]
+			for _, v := range []any{[]any{s, math.NaN()}, map[string]any{"k": s, "f": math.Inf(1)}, stf{S: s, F: math.NaN()}, &stf{S: s, F: math.Inf(-1)}, []any{s, make(chan int)}, map[string]any{s: func() {}}, []any{s, complex(1, 2)}, map[any]any{s: s}, map[string]any{"a": []any{stf{S: s, F: math.NaN()}}}} {
+				checkAll(v, false)
+			}
+		})
+		run.Cov["unencodable_values_carrying_a_string"] = len(carried) * 9
+	}
 	// numbers, bools, nil and friends
 	var np *int
 	for _, v := range []any{0, -1, 1<<53 + 1, int64(math.MaxInt64), uint64(math.MaxUint64), 1.5, 1e21, 1e-7, float32(0.1), math.Copysign(0, -1), true, false, nil, []int(nil), map[string]int(nil), np, struct{}{}, []any{}, map[string]any{}, int8(-128), json.Number("12.50"), json.RawMessage(`{"a":"</script>"}`), []byte("</script>"), math.NaN(), math.Inf(1)} {
